@@ -521,6 +521,11 @@ class ODVariable:
             mask |= 1 << bit
         temp &= ~mask
         temp |= bit_value << min(bits)
+        if self.data_type in SIGNED_TYPES:
+            # Keep the result within the type, the field may include the sign bit
+            temp &= (1 << len(self)) - 1
+            if temp >> (len(self) - 1):
+                temp -= 1 << len(self)
         return temp
 
 
